@@ -295,6 +295,27 @@ fn pair_laws(members: &[Member], sh: &util::Shard) -> Report {
         if let Some(d) = consistency(&base) {
             rep.violation("C07/observers-disagree", format!("{a}: {d}"), json!({"type":"identity","a":a}));
         }
+        // (vi) operands that were already used (manifested, fields read, assertions checked)
+        // before the extension combine exactly like fresh ones
+        for j in 0..n {
+            let bsrc = &members[j].src;
+            let plain = observe(&mut p, &format!("({a}) + ({bsrc})"), &mut rep);
+            let forced = observe(
+                &mut p,
+                &format!("(local a__ = {a}, b__ = {bsrc}; local w__ = std.length(std.toString(a__)) + std.length(std.toString(b__)) + std.length(std.objectFieldsAll(a__)); if w__ >= 0 then a__ + b__ else null)"),
+                &mut rep,
+            );
+            rep.states += 1;
+            rep.transitions += 1;
+            // only meaningful when both operands can be used on their own
+            let usable = observe(&mut p, &format!("std.length(std.toString({a})) + std.length(std.toString({bsrc})) >= 0"), &mut rep).manifest == "V true";
+            if usable {
+                rep.count("pre-used_operand_pairs", 1);
+                if plain != forced {
+                    rep.violation("C07/used-operands-combine-differently", format!("A + B differs when A and B were manifested before the extension: A={a}, B={bsrc}: {forced:?} vs fresh {plain:?}"), json!({"type":"pair-forced","a":a,"b":bsrc}));
+                }
+            }
+        }
         // (v) objectRemoveKey
         for k in KEYS {
             let rem = format!("std.objectRemoveKey({a}, \"{k}\")");
@@ -359,7 +380,7 @@ fn pair_laws(members: &[Member], sh: &util::Shard) -> Report {
 pub fn run(ctx: &Ctx) -> i32 {
     let members = pool(!ctx.quick());
     let mut total = Report::new();
-    let cfg = util::ForkCfg { threads: ctx.threads, mem_bytes: 4 << 30, case_timeout_s: 60, died_signature: "C07/abort".into() };
+    let cfg = util::ForkCfg { threads: ctx.threads, mem_bytes: 4 << 30, case_timeout_s: 60, died_signature: "C07/abort".into(), resource_is_violation: false };
     let tri: Vec<Member> = if ctx.quick() { members.clone() } else { members.iter().step_by(2).cloned().collect() };
     let r = util::par_forked(&cfg, 256, |sh| triple_sweep(&tri, sh));
     total.extra.insert("triple_pool".into(), json!(tri.len()));
